@@ -74,6 +74,9 @@ def _int(eng, args, kwargs, node):
         if v.t == BOOL:
             return Sym(zterm(v, INT), INT)
         if v.t == REAL:
+            if v.ratio is not None:
+                from .engine import ratio_trunc
+                return Sym(ratio_trunc(v), INT)
             return Sym(ztrunc(v.z), INT)
         if v.t == STR:
             from . import strings
